@@ -733,7 +733,7 @@ def exact_time_value(num):
 def gen_bad_delay(rng):
     v = rng.choice(["5", "", "s", "ms", "5 m s", "5mss", "5sms", "1 s 2 ms", None, "5 S", "5msec", "5 sec", "ms5", "s5", "5.ms", "5.s",
                     "+5ms", "+5s", " 5ms", " 5 s ", "5ms ", "5s\n", "1_0ms", "1_0 s", "0x10ms", "5e+3ms", "5e+3 s", "--5ms", "5..0s",
-                    "1e", "1e ms", "five ms", "5\xa0ms", "5 s", ".ms", ".s", "-ms", "-s", "e5s", "e5ms", "5min", "5us", "5m", 5, 2.5])
+                    "1e", "1e ms", "five ms", "5\xa0ms", "5 s", ".ms", ".s", "-ms", "-s", "e5s", "e5ms", "5min", "5us", "5m", 5, {"f": "2.5"}])
     return v
 
 
